@@ -495,3 +495,16 @@ Proof.
   intros Hs. rewrite <- (assert_no_intersection_done_iff ls Hs). exact (translated_outcome d ls Done Hs).
 Qed.
 
+(* any successful run of the executable evaluator on the translated function, with whatever fuel, returns the model's
+   outcome (the evaluator is monotone in the fuel: ImpFacts.call_user_mono) *)
+Theorem translated_run_is_model_outcome (ls : list (list String.string)) fl c :
+  Forall (StronglySorted slt) ls ->
+  call P 3 fl "assert_no_intersection" [enc_ls ls] = Some c ->
+  c = outcome_ctl (assert_no_intersection ls).
+Proof.
+  intros Hs H. change (call P 3 fl "assert_no_intersection" [enc_ls ls])
+    with (call_user P 3 fl "assert_no_intersection" [enc_ls ls]) in H.
+  pose proof (calls_of_run P 3 fl "assert_no_intersection" [enc_ls ls] c eq_refl H) as Hc.
+  pose proof (translated_assert_no_intersection 1 ls (assert_no_intersection_never_stuck ls Hs)) as Ht.
+  exact (calls_fun P _ _ _ _ _ Hc Ht).
+Qed.
